@@ -70,6 +70,8 @@ DEFAULT = dict(
   p_surfacevel=0.0,  # geom surface velocity (only when collide)
   p_actgravcomp=0.0,  # joints whose gravity compensation is applied through qfrc_actuator (actuatorgravcomp)
   p_gravcomp_x=0.0,  # body gravcomp drawn from the extras stream (p_gravcomp draws from the main stream)
+  p_soledge=0.0,  # solver parameters at their edges (solimp width 0, dmin == dmax, mid 0/1, power < 1 .. 6, direct solref) on
+  # geoms, joint / tendon limits and friction, equalities
 )
 
 
@@ -130,6 +132,21 @@ class Gen:
     self.uses_hfield = False
     self.feat = set()
 
+  def _xsol(self):
+    """(solref, solimp) strings with edge-case values, drawn from the extras stream."""
+    rx = self.rx
+    if rx.random() < 0.7:
+      ref = [rx.uniform(0.002, 0.05), rx.uniform(0.3, 1.5)]
+    else:
+      ref = [-rx.uniform(50, 2000), -rx.uniform(1, 50)]  # direct stiffness / damping form
+    dmin = float(rx.choice([0.0, 0.5, 0.9, rx.uniform(0.1, 0.95)]))
+    dmax = dmin if rx.random() < 0.15 else float(rx.choice([0.95, 0.9999, 1.0, rx.uniform(dmin, 0.99)]))
+    width = float(rx.choice([0.0, 1e-16, 0.001, 0.05]))
+    mid = float(rx.choice([0.0, 1.0, 0.5, 0.1, 0.9]))
+    power = float(rx.choice([0.5, 1.0, 2.0, 3.0, 6.0]))
+    self.feat.add("soledge")
+    return _f(ref), _f([dmin, dmax, width, mid, power])
+
   # ---------------------------------------------------------------- geoms
   def geom_xml(self, body, idx, world=False):
     rng, P = self.rng, self.P
@@ -171,6 +188,8 @@ class Gen:
     if self.P.get("p_fluid_ellipsoid") and body != "world" and rng.random() < self.P["p_fluid_ellipsoid"]:
       attrs["fluidshape"] = "ellipsoid"
       self.feat.add("fluid_ellipsoid")
+    if P.get("p_soledge") and P["collide"] and self.rx.random() < P["p_soledge"]:
+      attrs["solref"], attrs["solimp"] = self._xsol()
     if P.get("p_surfacevel") and P["collide"] and self.rx.random() < P["p_surfacevel"]:
       sv = self.rx.normal(size=6) * np.array([0.5, 0.5, 0.5, 1.0, 1.0, 1.0]) * (self.rx.random(6) < 0.6)
       attrs["surfacevel"] = _f(sv)
@@ -268,6 +287,11 @@ class Gen:
     if P.get("p_actgravcomp") and self.rx.random() < P["p_actgravcomp"]:
       a["actuatorgravcomp"] = "true"
       self.feat.add("actgravcomp")
+    if P.get("p_soledge"):
+      if "range" in a and self.rx.random() < P["p_soledge"]:
+        a["solreflimit"], a["solimplimit"] = self._xsol()
+      if "frictionloss" in a and self.rx.random() < P["p_soledge"]:
+        a["solreffriction"], a["solimpfriction"] = self._xsol()
     self.joints.append((name, jtype, body))
     self.feat.add("joint:" + jtype)
     return "<joint " + " ".join(f'{k}="{v}"' for k, v in a.items()) + "/>"
@@ -523,6 +547,11 @@ class Gen:
       a["actuatorfrcrange"] = _f([-lo, self.rx.uniform(0.05, 3.0)])
       a["actuatorfrclimited"] = "true"
       self.feat.add("actfrcrange:tendon")
+    if P.get("p_soledge"):
+      if "range" in a and self.rx.random() < P["p_soledge"]:
+        a["solreflimit"], a["solimplimit"] = self._xsol()
+      if "frictionloss" in a and self.rx.random() < P["p_soledge"]:
+        a["solreffriction"], a["solimpfriction"] = self._xsol()
     return " ".join(f'{k}="{v}"' for k, v in a.items())
 
   # ---------------------------------------------------------------- actuators
@@ -672,6 +701,9 @@ class Gen:
         sol = f' solref="{_f([rng.uniform(0.01, 0.05), rng.uniform(0.5, 1.5)])}"'
       if rng.random() < 0.3:
         sol += f' solimp="{_f([rng.uniform(0.8, 0.95), rng.uniform(0.95, 0.99), rng.uniform(0.0005, 0.005), 0.5, 2])}"'
+      if P.get("p_soledge") and self.rx.random() < P["p_soledge"]:
+        xr, xi = self._xsol()
+        sol = f' solref="{xr}" solimp="{xi}"'
       if kind == "connect" and moving:
         if rng.random() < 0.4 and len(self.sites) >= 2:
           i1, i2 = rng.choice(len(self.sites), size=2, replace=False)
